@@ -944,3 +944,8 @@ Fixpoint utf8_decode (bs : list N) : option str :=
   end.
 Definition url_unquote (s : str) : option str :=
   match percent_decode s with Some bs => utf8_decode bs | None => None end.
+
+(* one call on given arguments and heap; the dump lists the result first, then the arguments after the call *)
+Definition call_matches (vars : list dv) (cells : list dcell) (f : str) (args : list value) (h : heap) : bool :=
+  let (r, h') := lib f args h in
+  match wrapper r with Some v => state_matches vars cells (Some (v :: args, h')) | None => false end.
